@@ -5,6 +5,7 @@ go 1.23
 require (
 	github.com/lindb/common v0.0.6
 	github.com/lindb/lindb v0.0.0
+	github.com/lindb/roaring v1.2.1
 	go.uber.org/zap v1.21.0
 )
 
@@ -18,8 +19,11 @@ require (
 	github.com/gogo/protobuf v1.3.2 // indirect
 	github.com/golang/protobuf v1.5.4 // indirect
 	github.com/google/flatbuffers v23.3.3+incompatible // indirect
+	github.com/hashicorp/golang-lru/v2 v2.0.7 // indirect
 	github.com/jedib0t/go-pretty/v6 v6.4.6 // indirect
 	github.com/json-iterator/go v1.1.12 // indirect
+	github.com/klauspost/cpuid v1.3.1 // indirect
+	github.com/lithammer/go-jump-consistent-hash v1.0.2 // indirect
 	github.com/mattn/go-isatty v0.0.19 // indirect
 	github.com/mattn/go-runewidth v0.0.14 // indirect
 	github.com/modern-go/concurrent v0.0.0-20180306012644-bacd9c7ef1dd // indirect
